@@ -135,6 +135,8 @@ def write(prop, tier, seed, run, out, samples, known_hit, reported, source):
         "workers": run.W,
         "replicas_per_plan": run.k,
         "budget_exhausted": out["budget_exhausted"],
+        "determinism_selfcheck": out.get("determinism_selfcheck"),
+        "cross_session_isolated_outcomes_compared": out.get("iso_pairs_compared", 0),
         "cross_seed_divergences": out.get("cross_seed_divergences", 0),
         "systematic_spaces": _spaces(prop, out.get("cover") or ()),
         "known_findings_matched": [{"signature": s, "count": n} for s, n in known_hit],
